@@ -795,6 +795,26 @@ func (x *Exec) closureVars(st *State, fn *ssa.Function, bindings []Val) ([]strin
 	return names, vals
 }
 
+// anyChanKey: "anychan.<Elem>" — every channel whose element type has that bare name
+// (rename-proof alternative to naming a local channel variable in a contract).
+func anyChanKey(t types.Type) string {
+	ct, ok := t.Underlying().(*types.Chan)
+	if !ok {
+		return ""
+	}
+	e := ct.Elem()
+	if pt, ok := e.(*types.Pointer); ok {
+		e = pt.Elem()
+	}
+	switch n := e.(type) {
+	case *types.Named:
+		return "anychan." + n.Obj().Name()
+	case *types.Basic:
+		return "anychan." + n.Name()
+	}
+	return ""
+}
+
 func (x *Exec) chanKeyDepth(v ssa.Value, depth int) string {
 	if depth <= 0 {
 		return ""
@@ -878,6 +898,19 @@ func (x *Exec) chanInvFor(st *State, chv ssa.Value, ch Val, v Val) Term {
 			}
 			key = "local " + n
 		}
+		if inv == nil {
+			if ak := anyChanKey(chv.Type()); ak != "" {
+				for f := fn; f != nil && inv == nil; f = f.Parent() {
+					if fs := x.prog.spec.Funcs[x.prog.relName(f)]; fs != nil {
+						inv = fs.LocalChanInv[ak]
+					}
+				}
+				if inv == nil && len(st.frames) > 1 {
+					inv = x.spec.LocalChanInv[ak] // inlined helper
+				}
+				key = ak
+			}
+		}
 	}
 	if inv == nil {
 		return "true"
@@ -935,6 +968,22 @@ func (x *Exec) noteSend(st *State, chv ssa.Value, ch Val, v Val, cond Term, pos 
 		cur = "0"
 	}
 	st.ghostInt[key] = tIte(cond, "(+ "+cur+" 1)", cur)
+	if ak := anyChanKey(chv.Type()); ak != "" && ak != ck {
+		acur, ok := st.ghostInt["sent:"+ak]
+		if !ok {
+			acur = "0"
+		}
+		st.ghostInt["sent:"+ak] = tIte(cond, "(+ "+acur+" 1)", acur)
+		if len(v.L) > 0 {
+			aprev, ok := st.ghostInt["lastsent:"+ak]
+			if !ok {
+				aprev = rnil
+			}
+			st.ghostInt["lastsent:"+ak] = tIte(cond, v.L[0], aprev)
+		}
+		x.noteLast(st, "lastsent:", ak, v, cond)
+		x.noteLast(st, "sentch:", ak, ch, cond)
+	}
 	prev, ok := st.ghostInt["lastsent:"+ck]
 	if !ok {
 		prev = rnil
@@ -973,6 +1022,9 @@ func (x *Exec) noteRecv(st *State, chv ssa.Value, chVal Val, v Val, cond Term) {
 		}
 	}
 	if ck == "" {
+		ck = anyChanKey(chv.Type())
+	}
+	if ck == "" {
 		return
 	}
 	key := "recv:" + ck
@@ -983,6 +1035,15 @@ func (x *Exec) noteRecv(st *State, chv ssa.Value, chVal Val, v Val, cond Term) {
 	st.ghostInt[key] = tIte(cond, "(+ "+cur+" 1)", cur)
 	x.noteLast(st, "lastrecv:", ck, v, cond)
 	x.noteLast(st, "recvch:", ck, chVal, cond)
+	if ak := anyChanKey(chv.Type()); ak != "" && ak != ck {
+		acur, ok := st.ghostInt["recv:"+ak]
+		if !ok {
+			acur = "0"
+		}
+		st.ghostInt["recv:"+ak] = tIte(cond, "(+ "+acur+" 1)", acur)
+		x.noteLast(st, "lastrecv:", ak, v, cond)
+		x.noteLast(st, "recvch:", ak, chVal, cond)
+	}
 }
 
 func (x *Exec) send(st *State, in *ssa.Send) {
